@@ -333,6 +333,55 @@ pub fn run(cfg: &RunCfg, rep: &mut Report) {
             } else {
                 rep.count("concrete-parse-rejected");
             }
+            // n-ary conjunctions / disjunctions assembled through the API (the parser only builds
+            // binary ones): lifting must keep "all of" / "one of"
+            if i % 4 == 0 {
+                let mut parts: Vec<(crate::pol::Pol, Concrete<String>)> = vec![];
+                for _ in 0..(1 + rng.below(4)) {
+                    let mut c3 = pcfg.clone();
+                    c3.concrete = true;
+                    c3.repeat_atoms = false;
+                    c3.timelock_heavy = false;
+                    c3.constants = false;
+                    let nl = 1 + rng.below(2);
+                    let q = PolGen::new(&mut rng, c3).gen(nl, 0);
+                    if let Ok(Ok(cc)) = guarded(|| Concrete::<String>::from_str(&q.concrete(&nm))) {
+                        parts.push((q, cc));
+                    }
+                }
+                if !parts.is_empty() {
+                    let is_and = rng.coin();
+                    let model = if is_and {
+                        crate::pol::Pol::And(parts.iter().map(|(m, _)| m.clone()).collect())
+                    } else {
+                        crate::pol::Pol::Or(parts.iter().map(|(m, _)| (1usize, m.clone())).collect())
+                    };
+                    let obj = if is_and {
+                        Concrete::And(parts.iter().map(|(_, c)| std::sync::Arc::new(c.clone())).collect())
+                    } else {
+                        Concrete::Or(parts.iter().enumerate().map(|(n, (_, c))| (n + 1, std::sync::Arc::new(c.clone()))).collect())
+                    };
+                    let matoms = model.atoms();
+                    let shown = format!("{}({})", if is_and { "And" } else { "Or" }, parts.iter().map(|(m, _)| m.concrete(&nm)).collect::<Vec<_>>().join(" , "));
+                    rep.eval();
+                    let o2 = obj.clone();
+                    match guarded(std::panic::AssertUnwindSafe(move || o2.lift().map(|l| l.to_string()))) {
+                        Err(m) => rep.violation(i, format!("C18:panic:lift-api-built:{}", norm_loc(&last_panic_loc())), format!("Concrete::lift panicked ({}) on the API-built {}", m, shown)),
+                        Ok(Err(_)) => rep.count("api-built-nary-lift-refused"),
+                        Ok(Ok(ls)) => match to_pol(&ls) {
+                            Ok(lp) if matoms.len() <= 10 => {
+                                if let Some(mask) = differ(&lp, &model, &matoms, &none) {
+                                    rep.violation(i, format!("C18:api-built-{}-lift-changes-meaning", if is_and { "and" } else { "or" }), format!("lift of the API-built {} with {} children = {} differs at [{}]", shown, parts.len(), ls, assignment_str(&matoms, mask)));
+                                } else {
+                                    rep.count("api-built-nary-lift-equivalent");
+                                }
+                            }
+                            Ok(_) => {}
+                            Err(e) => rep.violation(i, "C18:lift-unparseable".into(), format!("{} : {}", ls, e)),
+                        },
+                    }
+                }
+            }
         }
     }
     if rep.samples.is_empty() {
